@@ -22,7 +22,7 @@ Deviations:
 * AGE MODE WITHOUT OVERRIDE IS MODELLED AS REPAIRED by `fixes/C26-age-mode.diff`
   (`age_limit = original_expiration_time - grant_renew_time`, i.e. the lease's own duration).
   The tree as shipped uses `age_limit = original_expiration_time` (an epoch timestamp);
-  `expiredShipped` below is that comparator, and `shipped_age_mode_never_expires` shows the defect.
+  `modeExpiredShipped` below is that comparator; the `example` at the end of this file shows the defect.
 * times are `Int` (the code compares Python ints/floats; the harness uses integral clocks);
   secrets are `Nat` identities (two leases have the same secret iff the same number);
 * statistics that depend on `os.stat` (sharebytes, diskbytes) and the lease-age histogram are not
